@@ -56,9 +56,12 @@ func wktLits(text string) []string {
 
 // case {kind:"wkt", g, ds}: structure of the WKT text for each digit limit;
 // case {kind:"geojson", g (GeoJSON model geometry), ds}: JSON tree for each limit, without and with a bounding box
-//   (options in both orders);
+//
+//	(options in both orders);
+//
 // case {kind:"nums", vals:[exact...], d}: every value written through both encoders (and the bbox) with limit d:
-//   the literals as written, next to the exact input value.
+//
+//	the literals as written, next to the exact input value.
 func digitsHandler(raw json.RawMessage) map[string]any {
 	var c struct {
 		Kind string
